@@ -1,25 +1,26 @@
-(* Model of src/write/writer.rs: a stack of text segments. *)
+(* Model of src/write/writer.rs: a stack of text segments (kept bottom first, as the Vec is). *)
 From Coq Require Import List NArith Lia Bool Arith.
 Import ListNotations.
 Require Import P.Generated.Enums P.Spec.Values P.Meta.Scan P.Model.Base P.Model.Token P.Model.Reader.
 
-(* the stack is kept head first (last segment of the Vec first) *)
-Definition wstack := list (list char).
-(* None = panic ("last", "overpop") *)
-Definition w_step (st : wstack) (e : ev) : option wstack :=
+Definition wstate := list (list char).        (* stack of segments, bottom first *)
+Definition split_last {A} (l : list A) : option (list A * A) :=
+  match rev l with [] => None | x :: r => Some (rev r, x) end.
+(* None = panic *)
+Definition w_step (s : wstate) (e : ev) : option wstate :=
   match e with
-  | ERoot k => Some ((match st with [] => pp_kind k | _ => DOT :: pp_kind k end) :: st)
-  | EExtend b k => Some ((pp_bond b ++ pp_kind k) :: st)
-  | EJoin b r => match st with [] => None | last :: t => Some ((last ++ pp_bond b ++ pp_rnum r) :: t) end
-  | EPop d =>
-      if length st <=? d then None
-      else let chain := rev (firstn d st) in
-           match skipn d st with
-           | [] => None
-           | last :: t => Some ((last ++ LP :: concat chain ++ [RP]) :: t)
-           end
+  | ERoot k => Some (s ++ [match s with [] => pp_kind k | _ => DOT :: pp_kind k end])
+  | EExtend b k => Some (s ++ [pp_bond b ++ pp_kind k])
+  | EJoin b r => match split_last s with
+                 | None => None                                   (* expect("last") *)
+                 | Some (init, last) => Some (init ++ [last ++ pp_bond b ++ pp_rnum r]) end
+  | EPop d => if length s <=? d then None                         (* panic!("overpop") *)
+              else let keep := firstn (length s - d) s in
+                   let chain := skipn (length s - d) s in
+                   match split_last keep with
+                   | None => None
+                   | Some (init, last) => Some (init ++ [last ++ LP :: concat chain ++ [RP]]) end
   end.
-Fixpoint w_fold (st : wstack) (h : list ev) : option wstack :=
-  match h with [] => Some st | e :: t => match w_step st e with Some st' => w_fold st' t | None => None end end.
-Definition w_write (st : wstack) : list char := concat (rev st).
-Definition wr (h : list ev) : option (list char) := option_map w_write (w_fold [] h).
+Fixpoint w_fold (s : wstate) (h : list ev) : option wstate :=
+  match h with [] => Some s | e :: t => match w_step s e with None => None | Some s' => w_fold s' t end end.
+Definition wr (h : list ev) : option (list char) := option_map (@concat char) (w_fold [] h).
